@@ -397,7 +397,7 @@ func run(tier core.Tier) *core.Report {
 	rep.Assume("pow.fork: side-branch blocks are served by QueryBlock (by id) only, trunk blocks by id and by height; ProcessConfirmBlock is called for trunk blocks only")
 	rep.Assume("a block's height is what the block claims (the header hash does not cover it and Ledger.ConfirmBlock overwrites it after CheckMinerMatch); the reference takes the true height = parent height + 1. Claimed heights are enumerated for PoW (true, 1) and XPoA (true, 2), not for TDPoS")
 	rep.Assume("TDPoS: before the configured init time no term exists, so nobody is entitled there; XPoA has no origin, for timestamps outside the enumerated rounds (negative, extreme) the code's own schedule triple is taken as naming the entitled validator and only accept-implies-entitled, at most one producer and no panic are judged")
-	rep.Assume("PoW covers the Bitcoin-style mode (defaultTarget > 256); the legacy leading-zero-bits mode is not enumerated")
+	rep.Assume("PoW: pow.chain covers the Bitcoin-style mode (defaultTarget > 256) and the legacy leading-zero-bits mode (declared bits <= 256 only: IsProofed shifts by uint(256-bits), which wraps for larger values and would allocate 2^32 bits); pow.compact, pow.isproofed, pow.fork and pow.history cover the Bitcoin-style mode only")
 	rep.Assume("pow.history runs the PoW plugin as NewPluggableConsensus makes it from the genesis configuration (consensus.NewPluginConsensus, StartHeight 1, Index 0, Start()); the pass-through PluggableConsensus layer (height-follows-parent guard) is exercised by pow.chain. " +
 		"A panic of the constructor / ProcessBeforeMiner / ProcessConfirmBlock is reported as an observation (pow.history.*_panics, pow.history.panic_observations), not as a violation: the property speaks about accepted blocks")
 	rep.Assume("PoW expectedPeriod is taken in seconds, as refreshDifficulty divides nanosecond timestamps by 1e9 before comparing")
